@@ -265,11 +265,12 @@ impl Debugger {
     /// later.
     fn check_interrupts(&mut self, pc: u16, instr: Option<SignificantInstr>) {
         // Remember if previous cycle paused on the same breakpoint
-        // If so, don't break now
+        // If so, don't break now -- unless an instruction was executed since, in which case
+        // control has come back to the breakpoint (eg. a branch to itself)
         if let Some(breakpoint) = self
             .breakpoints
             .get(pc)
-            .filter(|_| self.current_breakpoint != Some(pc))
+            .filter(|_| self.current_breakpoint != Some(pc) || self.instruction_count > 0)
         {
             if breakpoint.is_predefined {
                 dprintln!(
